@@ -323,6 +323,8 @@ impl<const H: usize> Writer<H> {
         let zero_header = [0u8; RECORD_HEAD_SIZE];
         self.writer.get_ref().write_all_at(&zero_header, offset)?;
         self.writer.get_ref().sync_data()?;
+        #[cfg(feature = "verif-hooks")]
+        crate::verif::record_durable(self.writer.get_ref(), offset);
 
         Ok(())
     }
@@ -341,6 +343,8 @@ impl<const H: usize> Writer<H> {
             trace!("flushing writer");
             self.writer.flush()?;
             self.writer.get_ref().sync_data()?;
+            #[cfg(feature = "verif-hooks")]
+            crate::verif::record_durable(self.writer.get_ref(), self.write_offset);
             self.flushed_offset.set(self.write_offset);
             self.dirty = false;
         }
